@@ -30,12 +30,12 @@ def shared_joint(rng):
 
 
 def gen(rng, tier):
-    n1, n2 = (14, 16) if tier == "quick" else (600, 900)
+    n1, n2 = (12, 12) if tier == "quick" else (600, 900)
     # every fourth structure is assembled from its own .inkfempre text read back (a sliced
     # structure that comes from a file has no load definitions, only nodal loads)
     cases = [core.case_from_struct(shared_joint(rng), Weight=core.weights(i), Assemble=True, ViaPre=(i % 4 == 1)) for i in range(n1)]
     cases += [core.case_from_struct(G.gen_frame(rng, max_cells=2), Weight=core.weights(i), Assemble=True, ViaPre=(i % 4 == 1)) for i in range(n2)]
-    k = 4 if tier == "quick" else 60
+    k = 3 if tier == "quick" else 60
     cases += [core.case_from_struct(G.gen_doubled_tie(rng), Weight=core.weights(i), Assemble=True) for i in range(k)]
     cases += [core.case_from_struct(G.with_unused_node(G.gen_frame(rng, max_cells=1) if i % 2 else shared_joint(rng), rng), Weight=False, Assemble=True) for i in range(k)]
     return cases
